@@ -19,6 +19,7 @@ def sites : List ((String × String × String) × String) :=
    (("compiler.go", "compiler.link", "m.Types"), "none: copies the map (order-free)"),
    (("compiler.go", "compiler.link", "types"), "ModOrder.types (linkModule)"),
    (("compiler.go", "compiler.link", "types"), "none: findTypeCycles per typedef; only error presence matters (moduleHasCycle)"),
+   (("constant_value.go", "ConstantStruct.Link", "c.Fields"), "none: copies the map (order-free; since the repair of D89 Link builds a new value)"),
    (("module.go", "Module.Walk", "m.Includes"), "ModOrder.includes (walk)"),
    (("service.go", "ServiceSpec.Link", "s.Functions"), "ModOrder.funcs (linkService)")]
 
